@@ -310,6 +310,69 @@ def gen_names(r, n):
     return out
 
 
+async def nested_homes(part, layout):
+    """accounts whose home directories are nested by domain and end in the same component (`a.example/alice`, `b.example/alice`): each one's store is its own home
+    directory - what one does with ordinary mailbox names stays below its home and is invisible to the other"""
+    import os
+    from pymap.imap import IMAPServer
+    from .common import wire
+    base = backends.scratch_dir('pymap-verif-c08-')
+    users = [('alice@a.example', 'pw1', (), 'a.example/alice'), ('alice@b.example', 'pw2', (), 'b.example/alice')]
+    case = dict(scenario='nested-homes', layout=layout)
+    try:
+        for d in ('a.example', 'b.example'):      # the domain directories are the administrator's; pymap creates the leaf only
+            os.mkdir(os.path.join(base, d))
+        config, login = await backends.make_maildir(base, layout=layout, users=users, bad_command_limit=None)
+        srv = IMAPServer(login, config)
+
+        def snapshot():
+            out = set()
+            for root, dirs, files in os.walk(base):
+                for n in dirs + files:
+                    out.add(os.path.relpath(os.path.join(root, n), base))
+            return out
+        conns = []
+        for u, pw, _, home in users:
+            c = wire.Client(srv)
+            await c.start()
+            raw = await c.send(b'a LOGIN "%s" %s\r\n' % (u.encode(), pw.encode()))
+            if b'a OK' not in raw:
+                raise RuntimeError(f'nested-homes fixture: LOGIN failed: {raw!r}')
+            conns.append(c)
+        before = snapshot()
+        a, b = conns
+        for line in (b'CREATE Private', b'APPEND Private {9+}\r\nA: b\r\n\r\nx', b'APPEND INBOX {9+}\r\nA: b\r\n\r\ny', b'SUBSCRIBE Private', b'CREATE a/b', b'RENAME a/b c'):
+            await a.send(b'a ' + line + b'\r\n')
+        after = snapshot()
+        part.case(key='nested-homes:' + layout, nontrivial=True, sample=case)
+        part.stat('nested-homes')
+        outside = sorted(p for p in after - before if not (p == 'a.example' or p.startswith('a.example/alice')))
+        if outside:
+            part.violation('monitor', f'{layout}: the account with home a.example/alice created {outside[:6]} - outside its own directory', dict(case, created=outside[:20]), signature='home-escape')
+        seen = await b.send(b'b LIST "" *\r\n')
+        st = await b.send(b'b STATUS Private (MESSAGES)\r\n')
+        ib = await b.send(b'b STATUS INBOX (MESSAGES)\r\n')
+        if b'Private' in seen or b'b OK' in st or b'MESSAGES 0' not in ib:
+            part.violation('monitor', f'{layout}: the account with home b.example/alice sees the other account\'s mailboxes: LIST {seen[:120]!r}, STATUS Private {st[-60:]!r}, INBOX {ib[-60:]!r}',
+                           case, signature='home-shared')
+        await b.send(b'b DELETE Private\r\n')
+        chk = await a.send(b'a STATUS Private (MESSAGES)\r\n')
+        if b'MESSAGES 1' not in chk:
+            part.violation('monitor', f'{layout}: DELETE Private by the account with home b.example/alice changed the other account\'s mailbox: {chk[-80:]!r}', case, signature='home-shared')
+        for c in conns:
+            await c.eof()
+    finally:
+        backends.rmtree(base)
+
+
+def homes_worker(job):
+    part = Part()
+    for layout in ('++', 'fs'):
+        with guarded(part, 'C08 nested homes', dict(scenario='nested-homes', layout=layout)):
+            asyncio.run(nested_homes(part, layout))
+    return part.result()
+
+
 def run(ctx):
     ctx.rep.rule = RULE
     ctx.rep.assumptions = ['lexical path model: no symlinks planted inside the store, no mount points, case-sensitive filesystem',
@@ -322,10 +385,19 @@ def run(ctx):
         chunk = names[k::nw]
         jobs.append((ctx.seed + k, chunk, ['default', 'fs'] + (['dict'] if k % 4 == 0 else [])))
     ctx.pmap(worker, jobs)
+    ctx.pmap(homes_worker, [0])
 
 
 def replay(case):
     case = case.get('case', case)
+    if case.get('scenario') == 'nested-homes':
+        part = Part()
+        asyncio.run(nested_homes(part, case.get('layout', '++')))
+        res = part.result()
+        for v in res['violations']:
+            print(f"[{v['kind']}] {v['what']}")
+        print('reproduced' if res['violations'] else 'not reproduced')
+        return 1 if res['violations'] else 0
     part = Part()
     m = Model()
     rec = Recorder()
